@@ -16,17 +16,19 @@ pub struct Shape17 {
     pub n2: usize,
     /// 0: no closure (only with n2 = 0), 1: closure(s) present (empty when n2 = 0)
     pub closure: u8,
+    /// party capacity of the generator sets (the circuit proof only ever uses party 0)
+    pub parties: u8,
 }
 
 impl Shape17 {
     pub fn encode(&self) -> Vec<u8> {
-        vec![self.curve.index() as u8, self.n1 as u8, self.n2 as u8, self.closure]
+        vec![self.curve.index() as u8, self.n1 as u8, self.n2 as u8, self.closure, self.parties]
     }
     pub fn decode(b: &[u8]) -> Option<Self> {
-        if b.len() != 4 {
+        if b.len() != 5 {
             return None;
         }
-        Some(Shape17 { curve: *Curve::ALL.get(b[0] as usize)?, n1: b[1] as usize, n2: b[2] as usize, closure: b[3] })
+        Some(Shape17 { curve: *Curve::ALL.get(b[0] as usize)?, n1: b[1] as usize, n2: b[2] as usize, closure: b[3], parties: b[4] })
     }
 }
 
@@ -62,7 +64,7 @@ pub fn program(s: &Shape17) -> Program {
         }
         ops.push(Op::Closure(body));
     }
-    Program { curve: s.curve, tlabel: 1, pre: vec![], ops, owned: false, cap_p: Cap::Big, cap_v: Cap::Big, party_cap: 1, seed: 17, pc: 0 }
+    Program { curve: s.curve, tlabel: 1, pre: vec![], ops, owned: false, cap_p: Cap::Big, cap_v: Cap::Big, party_cap: s.parties.max(1), seed: 17, pc: 0 }
 }
 
 fn shape_case<G: CurveTag>(s: &Shape17, col: &mut Collector) -> Result<(), Failure> {
@@ -181,16 +183,20 @@ pub fn replay(_sub: &str, bytes: &[u8], col: &mut Collector) -> Result<(), Failu
 pub fn run(tier: &str, seed: u64) -> i32 {
     let mut rep = Report::new("C17", tier, seed);
     rep.level = "exploration";
-    rep.rule = "exhaustive grid: first-phase gates 0..9 × second-phase gates 0..9 (n2 = 0 both without a closure and with an empty one) × prover capacity ∈ {0..17, 32} × verifier capacity ∈ {0..17, 32} × {verify, batch_verify alone, batch_verify beside a valid member} × 3 curves; non-trivial = capacity within ±1 of the threshold; distinct = (shape, role/mode, capacity)".into();
+    rep.rule = "exhaustive grid: first-phase gates 0..9 × second-phase gates 0..9 (n2 = 0 both without a closure and with an empty one) × prover capacity ∈ {0..17, 32} × verifier capacity ∈ {0..17, 32} × {verify, batch_verify alone, batch_verify beside a valid member} × party capacity {1,2,3} × 3 curves; non-trivial = capacity within ±1 of the threshold; distinct = (shape, role/mode, capacity)".into();
     rep.assumptions = vec!["threshold = max(1, next_power_of_two(n1 + n2)) as the property states".into()];
     let mut shapes = vec![];
     for curve in Curve::ALL {
         for n1 in 0..10 {
             for n2 in 0..10 {
-                if n2 == 0 {
-                    shapes.push(Shape17 { curve, n1, n2, closure: 0 });
+                // party capacity rotates over 1, 2, 3 in the quick tier; all three in the thorough tier
+                let ps: Vec<u8> = if tier == "thorough" { vec![1, 2, 3] } else { vec![1 + ((n1 + 2 * n2 + curve.index()) % 3) as u8] };
+                for parties in ps {
+                    if n2 == 0 {
+                        shapes.push(Shape17 { curve, n1, n2, closure: 0, parties });
+                    }
+                    shapes.push(Shape17 { curve, n1, n2, closure: 1, parties });
                 }
-                shapes.push(Shape17 { curve, n1, n2, closure: 1 });
             }
         }
     }
@@ -198,13 +204,13 @@ pub fn run(tier: &str, seed: u64) -> i32 {
         // a few large thresholds on a rotating curve
         let curve = Curve::ALL[(seed % 3) as usize];
         for (n1, n2) in [(33, 0), (60, 5), (128, 0), (100, 29), (200, 30)] {
-            shapes.push(Shape17 { curve, n1, n2, closure: if n2 > 0 { 1 } else { 0 } });
+            shapes.push(Shape17 { curve, n1, n2, closure: if n2 > 0 { 1 } else { 0 }, parties: 1 + ((n1 + n2) % 3) as u8 });
         }
     }
     if tier == "thorough" {
         for curve in Curve::ALL {
             for (n1, n2) in [(31, 0), (32, 0), (33, 0), (20, 12), (30, 3), (63, 0), (60, 4), (64, 0), (33, 32), (65, 0), (100, 28), (127, 0), (128, 0), (129, 0)] {
-                shapes.push(Shape17 { curve, n1, n2, closure: if n2 > 0 { 1 } else { 0 } });
+                shapes.push(Shape17 { curve, n1, n2, closure: if n2 > 0 { 1 } else { 0 }, parties: 1 + ((n1 + n2) % 3) as u8 });
             }
         }
     }
